@@ -301,7 +301,9 @@ def make_bonds(system, allow_name=True, allow_dist=True, fudge=1.2):
     residue_graph = partition_graph(system, residue_groups.values())
     for res_node_idxs in nx.connected_components(residue_graph):
         node_idxs = set().union(*(residue_graph.nodes[rni]['graph'] for rni in res_node_idxs))
-        mol = Molecule(system.subgraph(node_idxs))
+        # Keep the atoms in the order of the input: a subgraph lists its nodes
+        # in the order they are given in, and a set has no meaningful order.
+        mol = Molecule(system.subgraph(sorted(node_idxs)))
         molecules.append(mol)
 
     return molecules
